@@ -7,6 +7,10 @@ pub(crate) struct URLEncodedSerializer {
 
     /// To forbid nesting maps
     init: bool,
+
+    /// Whether the next element of a sequence is its first one
+    /// ( `output.ends_with('=')` can't tell: it also holds after an empty first element )
+    first_element: bool,
 }
 impl URLEncodedSerializer {
     #[inline]
@@ -14,6 +18,7 @@ impl URLEncodedSerializer {
         Self {
             output: String::new(),
             init:   true,
+            first_element: false,
         }
     }
 
@@ -81,7 +86,7 @@ const _: () = {
 
         fn serialize_element<T: ?Sized>(&mut self, value: &T) -> Result<(), Self::Error>
         where T: serde::Serialize {
-            if !self.output.ends_with('=') {
+            if !std::mem::replace(&mut self.first_element, false) {
                 self.output.push(',');
             }
             value.serialize(&mut **self)
@@ -96,7 +101,7 @@ const _: () = {
 
         fn serialize_element<T: ?Sized>(&mut self, value: &T) -> Result<(), Self::Error>
         where T: serde::Serialize {
-            if !self.output.ends_with('=') {
+            if !std::mem::replace(&mut self.first_element, false) {
                 self.output.push(',');
             }
             value.serialize(&mut **self)
@@ -111,7 +116,7 @@ const _: () = {
 
         fn serialize_field<T: ?Sized>(&mut self, value: &T) -> Result<(), Self::Error>
         where T: serde::Serialize {
-            if !self.output.ends_with('=') {
+            if !std::mem::replace(&mut self.first_element, false) {
                 self.output.push(',');
             }
             value.serialize(&mut **self)
@@ -126,7 +131,7 @@ const _: () = {
 
         fn serialize_field<T: ?Sized>(&mut self, value: &T) -> Result<(), Self::Error>
         where T: serde::Serialize {
-            if !self.output.ends_with('=') {
+            if !std::mem::replace(&mut self.first_element, false) {
                 self.output.push(',');
             }
             value.serialize(&mut **self)
@@ -262,6 +267,7 @@ impl serde::Serializer for &mut URLEncodedSerializer {
     }
 
     fn serialize_seq(self, _len: Option<usize>) -> Result<Self::SerializeSeq, Self::Error> {
+        self.first_element = true;
         Ok(self)
     }
     fn serialize_tuple(self, len: usize) -> Result<Self::SerializeTuple, Self::Error> {
